@@ -335,10 +335,10 @@ fn relevant(prop: &str, oracle: &str, o: &Outcome) -> bool {
     match prop {
         "C10" => true,
         // more objects than max_size
-        "C01" => oracle == "too-many-live-objects",
+        "C01" => matches!(oracle, "too-many-live-objects" | "capacity-surplus-at-rest"),
         // capacity lost / a slot kept by a call that timed out; get() never panics
-        "C02" => matches!(oracle, "slot-not-released" | "panic"),
-        "C03" => matches!(oracle, "slot-not-released" | "object-fate-mismatch" | "destroyed-without-single-detach"),
+        "C02" => matches!(oracle, "slot-not-released" | "panic" | "capacity-lost-at-rest" | "capacity-surplus-at-rest"),
+        "C03" => matches!(oracle, "slot-not-released" | "object-fate-mismatch" | "destroyed-without-single-detach" | "capacity-lost-at-rest"),
         // rejected (timed-out) objects are discarded and never handed out; documented errors only
         "C04" => matches!(oracle, "object-fate-mismatch" | "undocumented-error" | "destroyed-without-single-detach") || (oracle == "timing-model-mismatch" && o.other_object),
         // waiters and later callers get Closed, the closed pool keeps nothing
@@ -966,6 +966,226 @@ fn run_managed(case: &Case) -> Outcome {
     }
     out.trace = world.w().log.clone();
     out
+}
+
+/// Model-free run of a managed history with a runtime: the steps are driven by the real pool
+/// alone (gates are picked among the gates that exist, the clock moves in 1 ms ticks), only
+/// invariants that need no timing model are judged - never more live objects than max_size, an
+/// object the live pool destroys was detached exactly once - and at the end, with every gate
+/// open, every object returned and every deadline long past, the pool must offer exactly its
+/// capacity again. Used by the checks that borrow this interpreter for their "timed-out calls"
+/// clause, where a pure timing deviation is not theirs to judge.
+fn run_managed_free(case: &Case) -> Outcome {
+    let world = Arc::new(World(Mutex::new(W {
+        log: vec![],
+        create: case.create.clone(),
+        recycle: case.recycle.clone(),
+        n_create: 0,
+        n_recycle: 0,
+        next_obj: 0,
+        destroyed: vec![],
+        detached: vec![],
+        gates: vec![],
+    })));
+    let mut out = Outcome {
+        violation: None,
+        pair: None,
+        other_object: false,
+        closed: false,
+        labels: vec!["free-run".into()],
+        nontrivial: false,
+        trace: vec![],
+        step: 0,
+    };
+    let Ok(rt) = tokio::runtime::Builder::new_current_thread().enable_time().start_paused(true).build() else {
+        return out;
+    };
+    let w2 = world.clone();
+    let r = catch_unwind(AssertUnwindSafe(|| rt.block_on(free_body(case, w2, &mut out))));
+    if let Err(p) = r {
+        if out.violation.is_none() {
+            out.violation = Some(("panic".into(), format!("a pool call panicked: {:?}", classify_panic(p))));
+        }
+    }
+    out.trace = world.w().log.clone();
+    out
+}
+
+async fn free_body(case: &Case, world: Arc<World>, out: &mut Outcome) {
+    let max = case.max_size as usize;
+    let pool = match managed::Pool::<Mgr>::builder(Mgr { world: world.clone() })
+        .max_size(max)
+        .timeouts(case.pool_t.timeouts())
+        .runtime(Runtime::Tokio1)
+        .build()
+    {
+        Ok(p) => p,
+        Err(_) => return,
+    };
+    struct FGet {
+        fut: Option<GetFut>,
+        flag: Arc<WakeFlag>,
+    }
+    let mut gets: Vec<FGet> = vec![];
+    let mut held: Vec<managed::Object<Mgr>> = vec![];
+    let mut closed = false;
+    macro_rules! settle {
+        () => {{
+            for _round in 0..64 {
+                let mut progressed = false;
+                for gi in 0..gets.len() {
+                    if gets[gi].fut.is_none() || !gets[gi].flag.is_set() {
+                        continue;
+                    }
+                    let _ = gets[gi].flag.take();
+                    let Some(mut fut) = gets[gi].fut.take() else { continue };
+                    let waker = Waker::from(gets[gi].flag.clone());
+                    let mut cx = Context::from_waker(&waker);
+                    progressed = true;
+                    match fut.as_mut().poll(&mut cx) {
+                        Poll::Pending => gets[gi].fut = Some(fut),
+                        Poll::Ready(r) => {
+                            drop(fut);
+                            if let Ok(o) = r {
+                                held.push(o);
+                            }
+                        }
+                    }
+                }
+                if !progressed {
+                    break;
+                }
+            }
+        }};
+    }
+    macro_rules! invariants {
+        ($at:expr) => {{
+            let (wd, wdet) = {
+                let w = world.w();
+                (w.destroyed.clone(), w.detached.clone())
+            };
+            for (id, d) in wd.iter().enumerate() {
+                if *d && wdet[id] != 1 {
+                    out.violation = Some((
+                        "destroyed-without-single-detach".into(),
+                        format!("{}: object {} was destroyed by the live pool with {} detach calls", $at, id, wdet[id]),
+                    ));
+                    return;
+                }
+            }
+            let live = wd.iter().filter(|d| !**d).count();
+            if live > max {
+                out.violation = Some(("too-many-live-objects".into(), format!("{}: {} objects are alive, max_size is {}", $at, live, max)));
+                return;
+            }
+            if held.len() > max {
+                out.violation = Some(("too-many-live-objects".into(), format!("{}: {} callers hold an object, max_size is {}", $at, held.len(), max)));
+                return;
+            }
+        }};
+    }
+    for (si, step) in case.steps.iter().enumerate() {
+        out.step = si;
+        match *step {
+            Step::Get { per_call } => {
+                if gets.iter().filter(|g| g.fut.is_some()).count() >= 6 {
+                    continue;
+                }
+                let p2 = pool.clone();
+                let fut: GetFut = match per_call {
+                    Some(t3) => {
+                        let to = t3.timeouts();
+                        Box::pin(async move { p2.timeout_get(&to).await })
+                    }
+                    None => Box::pin(async move { p2.get().await }),
+                };
+                let flag = WakeFlag::new();
+                flag.woken.store(true, std::sync::atomic::Ordering::SeqCst);
+                gets.push(FGet { fut: Some(fut), flag });
+                settle!();
+            }
+            Step::Advance { ms } => {
+                for _ in 0..ms {
+                    tokio::time::advance(Duration::from_millis(1)).await;
+                    settle!();
+                }
+            }
+            Step::OpenGate { i, .. } => {
+                let waker = {
+                    let mut w = world.w();
+                    let closed_gates: Vec<usize> = w.gates.iter().enumerate().filter(|(_, g)| !g.dead && !g.open && !g.never).map(|(k, _)| k).collect();
+                    let Some(k) = pick(i, closed_gates.len()) else { continue };
+                    let gate = closed_gates[k];
+                    w.gates[gate].open = true;
+                    w.gates[gate].waker.take()
+                };
+                if let Some(wk) = waker {
+                    wk.wake();
+                }
+                settle!();
+            }
+            Step::Return { h, .. } => {
+                let Some(i) = pick(h, held.len()) else { continue };
+                drop(held.remove(i));
+                settle!();
+            }
+            Step::Close => {
+                pool.close();
+                closed = true;
+                settle!();
+            }
+        }
+        invariants!("after a step");
+    }
+    // ---- wrap up: open every gate that can open, give everything back, let every deadline pass
+    for _ in 0..8 {
+        let wakers: Vec<Waker> = {
+            let mut w = world.w();
+            let mut v = vec![];
+            for g in w.gates.iter_mut() {
+                if !g.dead && !g.open && !g.never {
+                    g.open = true;
+                    if let Some(wk) = g.waker.take() {
+                        v.push(wk);
+                    }
+                }
+            }
+            v
+        };
+        for wk in wakers {
+            wk.wake();
+        }
+        settle!();
+        held.clear();
+        settle!();
+        for _ in 0..120 {
+            tokio::time::advance(Duration::from_millis(1)).await;
+            settle!();
+        }
+    }
+    held.clear();
+    settle!();
+    invariants!("after the wrap-up");
+    let pending = gets.iter().filter(|g| g.fut.is_some()).count();
+    if !closed && pending == 0 {
+        out.labels.push("free-run:capacity-probe".into());
+        let sn = pool.verif_snapshot();
+        if sn.permits < max {
+            out.violation = Some((
+                "capacity-lost-at-rest".into(),
+                format!("with every object returned, every gate open and no call pending the pool offers {} of {} slots ({:?})", sn.permits, max, sn),
+            ));
+            return;
+        }
+        if sn.permits > max {
+            out.violation = Some((
+                "capacity-surplus-at-rest".into(),
+                format!("with every object returned and no call pending the pool offers {} slots, max_size is {} ({:?})", sn.permits, max, sn),
+            ));
+            return;
+        }
+    }
+    drop(gets);
 }
 
 async fn run_managed_body(case: &Case, world: Arc<World>, out: &mut Outcome) {
@@ -1815,6 +2035,19 @@ impl Engine for Tsim {
             if !relevant(&ctx.prop, oracle, &o) {
                 o.labels.push(format!("outside-this-property:{}", oracle));
                 o.violation = None;
+            }
+        }
+        // the model-free run: for the checks that borrow this interpreter, and for C10 itself
+        if o.violation.is_none() && !case.realtime_zero && !case.unmanaged && case.runtime && matches!(ctx.prop.as_str(), "C01" | "C02" | "C03" | "C10") {
+            let f = run_managed_free(case);
+            if let Some((oracle, _)) = &f.violation {
+                if relevant(&ctx.prop, oracle, &f) {
+                    let labels = std::mem::take(&mut o.labels);
+                    o = f;
+                    o.labels.extend(labels);
+                }
+            } else {
+                o.labels.extend(f.labels);
             }
         }
         let mut labels = std::mem::take(&mut o.labels);
